@@ -173,6 +173,10 @@ func installCounterHook() {
 
 type mvExec struct {
 	liveIter bool // a long-lived iterator is open (it holds a barrier session)
+	// the application side of Node.Link: every second node is kept in a NodeList (as an index would
+	// chain the nodes of one hash bucket) and taken out of it right before it is deleted
+	nl   *nitro.NodeList
+	inNL map[int]bool
 	in      *mvInput
 	db      *nitro.Nitro
 	arena   *Arena
@@ -317,6 +321,13 @@ func (e *mvExec) apply(op mvOp) {
 				r.vers = append(r.vers, &refVer{item: bs, born: r.currSn})
 				r.live[r.key(bs)] = vid
 				r.pending++
+				if vid%2 == 0 {
+					if e.nl == nil {
+						e.nl, e.inNL = nitro.NewNodeList(nil), map[int]bool{}
+					}
+					e.nl.Add(n)
+					e.inNL[vid] = true
+				}
 			} else {
 				r.vers = append(r.vers, &refVer{item: bs, born: r.currSn, gone: true})
 			}
@@ -335,6 +346,9 @@ func (e *mvExec) apply(op mvOp) {
 		e.coqObs = append(e.coqObs, "ONode "+coqOptN(n != nil, id))
 	case "del":
 		bs := i2b(op.Bs)
+		if v0, ex := r.live[r.key(bs)]; ex {
+			e.nlRemove(v0)
+		}
 		n, ok := e.ws[op.W].Delete2(bs)
 		vid, exists := r.live[r.key(bs)]
 		id := e.nodeID[n]
@@ -348,6 +362,7 @@ func (e *mvExec) apply(op mvOp) {
 		}
 	case "delnode":
 		n := e.nodes[op.ID]
+		e.nlRemove(op.ID)
 		ok := e.ws[op.W].DeleteNode(n)
 		v := r.vers[op.ID]
 		want := v.dead == 0 && !v.gone
@@ -443,6 +458,18 @@ func (e *mvExec) apply(op mvOp) {
 		e.coqObs = append(e.coqObs, "OCount "+cZ(c))
 	default:
 		panic("unknown op " + op.Op)
+	}
+}
+
+// nlRemove takes a node out of the application's NodeList (it comes back with its Link still set)
+func (e *mvExec) nlRemove(vid int) {
+	if e.inNL == nil || !e.inNL[vid] {
+		return
+	}
+	delete(e.inNL, vid)
+	got := e.nl.Remove(e.ref.vers[vid].item)
+	if got != e.nodes[vid] {
+		e.fail("c20-nodelist", fmt.Sprintf("NodeList.Remove(%v) returned a different node than the one added for it", e.ref.vers[vid].item))
 	}
 }
 
